@@ -26,6 +26,8 @@ X = "repository::x509::"
 
 def run(ctx):
     f = ctx.facts()
+    ctx.rule("R-REG", "decision table equals the spec")
+    K.check_serial_start(ctx, f)
     ctx.rule("R-GRD", "success requires the guard literal")
     ctx.rule("R-CHK", "every success path passes a checked call to the sink")
     ctx.rule("R-FLOW", "operand provenance")
